@@ -159,8 +159,10 @@ func (mb *mbox) writeIndex() error {
 		if err := mb.createDir(); err != nil {
 			return err
 		}
-		// Open index for writing
-		file, err := os.Create(mb.indexPath)
+		// Write the new index to a temporary file and rename it over the live one, so that a
+		// crash at any point leaves either the old or the new index, never a truncated one.
+		tmpPath := mb.indexPath + ".tmp"
+		file, err := os.Create(tmpPath)
 		if err != nil {
 			return err
 		}
@@ -169,21 +171,29 @@ func (mb *mbox) writeIndex() error {
 		enc := gob.NewEncoder(writer)
 		if err = enc.Encode(mb.name); err != nil {
 			_ = file.Close()
+			_ = os.Remove(tmpPath)
 			return err
 		}
 		for _, m := range mb.messages {
 			if err = enc.Encode(m); err != nil {
 				_ = file.Close()
+				_ = os.Remove(tmpPath)
 				return err
 			}
 		}
 		if err := writer.Flush(); err != nil {
 			_ = file.Close()
+			_ = os.Remove(tmpPath)
 			return err
 		}
 		if err := file.Close(); err != nil {
 			log.Error().Str("module", "storage").Str("path", mb.indexPath).Err(err).
 				Msg("Failed to close")
+			_ = os.Remove(tmpPath)
+			return err
+		}
+		if err := os.Rename(tmpPath, mb.indexPath); err != nil {
+			_ = os.Remove(tmpPath)
 			return err
 		}
 	} else {
